@@ -12,4 +12,6 @@ pub mod pivot;
 pub mod schur;
 pub mod triang;
 pub mod decomp;
+#[cfg(feature = "verif-hooks")]
+pub mod verif_hooks;
 mod util;
